@@ -201,11 +201,14 @@ def _verus_name(res, f):
     typ, _, meth = qual.rpartition("::")
     typ = typ.split(" for ")[-1]
     typ = re.sub(r"<.*$|\s+where\b.*$", "", typ).strip()
-    names = [f.get("out_name") or meth, meth, meth + "_body"]
-    for k in res.fn_times:
-        parts = k.split("::")
-        if parts[-1] in names and (not typ or (len(parts) >= 2 and parts[-2] == typ)) and (typ or len(parts) == 2):
-            return "::".join(parts[1:])
+    # the emitted name (after `as <newname>` / R6 `drop` -> `drop_body`) is authoritative; fall back to the source name
+    for names in ([f.get("name")] if f.get("name") else []), [meth, meth + "_body"]:
+        hits = [k for k in res.fn_times if k.split("::")[-1] in names
+                and ((not typ and len(k.split("::")) == 2) or (typ and len(k.split("::")) >= 2 and k.split("::")[-2] == typ))]
+        if len(hits) == 1:
+            return "::".join(hits[0].split("::")[1:])
+        if len(hits) > 1:
+            return None     # ambiguous: take the failure as reported
     return None
 
 
